@@ -357,6 +357,13 @@ func (fr *Frame) applyContract(instr ssa.Instruction, bc *BoundContract, sig *ty
 	bc.bindParams(env, recv, args, nil)
 	if bc.C.Trusted || bc.C.IsIface || strings.HasSuffix(bc.C.File, ".spec") {
 		c.trusted[bc.Full] = true
+	} else {
+		for _, cl := range bc.C.Clauses {
+			if cl.Kind == "assume" {
+				c.trusted[bc.Full+" [assume clauses]"] = true
+				break
+			}
+		}
 	}
 	// preconditions
 	for _, cl := range bc.C.Clauses {
@@ -885,6 +892,21 @@ func (fr *Frame) execBuiltin(instr ssa.Instruction, b *ssa.Builtin, call *ssa.Ca
 		}
 		return scalar(n, rt)
 	case "copy":
+		// copy(dst, src) where dst is the full slice of a local array: the array's contents become a function of src
+		if d := args[0]; d.ArrRef != nil && d.ArrT != nil && args[1].T != nil {
+			src := args[1].T
+			if src.Sort == SStr {
+				src = fr.convert(instr, args[1], types.Typ[types.String], types.NewSlice(types.Typ[types.Byte])).T
+			}
+			if src.Sort == SSl {
+				a := d.ArrT.Underlying().(*types.Array)
+				k, ks, es := c.arrKey(d.ArrT)
+				cur := c.get(st, k, ks)
+				c.set(st, k, tStore(cur, d.ArrRef, c.copyInto(tSelect(cur, d.ArrRef), src, a.Len(), es)))
+				n := intLit(a.Len())
+				return scalar(tIte(mk(SBool, "(< (slen %s) %s)", src.S, n.S), tApp(SInt, "slen", src), n), rt)
+			}
+		}
 		fr.unsupported(instr.Pos(), "copy()")
 		return c.freshVal("copy", rt)
 	case "delete":
